@@ -24,9 +24,9 @@ def processLine (line : String) : List String :=
       let tr : Spec.Tr := { height := natOf seq, appHash := listOf (rkv.get "ah"), results := listOf (rkv.get "rh"),
                             exports := listOf (rkv.get "ex") }
       let viol := Spec.monitors.filterMap (fun (pid, name, f) => if f tr then none else some s!"{seq} V {pid} {name}")
-      let wellFormed := tr.appHash.length == 4 && tr.results.length == 4 && tr.exports.length == 4
+      let wellFormed := tr.appHash.length == 5 && tr.results.length == 5 && tr.exports.length == 5
       let tag := s!"block/ok/ntx-{cls (natOf (okv.get "ntx"))}.ok-{cls (natOf (okv.get "oktx"))}.reads-{cls (natOf (okv.get "reads"))}" ++
-                 s!".tick{okv.get "tick"}.export{if (tr.exports.all (· == "-")) then 0 else 1}.d{if tr.appHash.getD 3 "-" == "-" then 0 else 1}"
+                 s!".tick{okv.get "tick"}.export{if (tr.exports.all (· == "-")) then 0 else 1}.d{if tr.appHash.getD 3 "-" == "-" then 0 else 1}.e{if tr.appHash.getD 4 "-" == "-" then 0 else 1}"
       (if wellFormed then [s!"{seq} A {tag}"] else [s!"{seq} E malformed-observation"]) ++ viol
     | _ => ["? E malformed"]
   else []
